@@ -1,12 +1,15 @@
 """C10 - Parallel mode is observationally equivalent to sequential mode.
 
-Structural clauses decided (DESIGN.md §5 C10):
- R1 the HTTP dispatch hash is direction-symmetric (both directions of a connection reach one worker)
- R2 per-worker analysis state (flow cache, connection tracker, HTTP processors) is created inside worker_loop
- R3 packets taken from the queue are processed in receive order (batch only pushed, drained forward)
+Structural clauses decided:
+ R1 the HTTP dispatch hash is direction-symmetric under a total order of (address, port)
+ R2 per-worker analysis state is created inside worker_loop, before the service loop, and shrunk only by its owner; every
+    worker is started with clones of the shared values and the configured limits unchanged
+ R3 packets taken from the queue are processed in receive order (batch only pushed, drained forward); a received packet
+    always reaches batch.push / process_packet before the next receive or the exit
  R4 the worker's per-packet function calls the same pipeline as the sequential one (filter -> parse -> process v4|v6)
- R5 every pipeline result is forwarded exactly once on the result channel
- R6 the TCP sharding key is the source address and the uptime state is keyed per direction
+ R5 every pipeline result is forwarded exactly once on the result channel; a worker stops only on shutdown / disconnect /
+    closed result channel
+ R6 the TCP sharding key is the source address and the uptime state is keyed per direction (C19.R1,R2,R4)
 """
 from ..engine import cfg as C
 from ..engine import q as Q
